@@ -236,3 +236,65 @@ def sort_calls(calls: list) -> list:
     import json
 
     return sorted(calls, key=lambda c: json.dumps(c, sort_keys=True))
+
+
+def map_case(
+    program: list[dict],
+    values: list,
+    map_over: list[str],
+    mode: str = "zip",
+    map_err: str = "raise",
+    cfg: dict | None = None,
+    runner: str = "sync",
+    *,
+    max_concurrency: int | None = None,
+    ctl: Any = None,
+    record_events: bool = False,
+    env: Env | None = None,
+) -> dict:
+    """runner.map(...) on the real implementation; canonical observation."""
+    cfg = cfg or {}
+    env = env or Env()
+    try:
+        graphs = build.build_program(program, env, async_bodies=(runner == "async"))
+    except Exception as e:
+        return {"status": "build-error", "detail": f"{type(e).__name__}: {e}"[:300], "results": [], "raised": None, "calls": []}
+    g = graphs[-1]
+    vals = {k: py_val(v) for k, v in values}
+    kwargs: dict[str, Any] = {"map_over": map_over, "map_mode": mode, "error_handling": map_err}
+    if cfg.get("select") is not None:
+        kwargs["select"] = cfg["select"]
+    if "onMissing" in cfg:
+        kwargs["on_missing"] = cfg["onMissing"]
+    rec = Recorder() if record_events else None
+    if rec is not None:
+        kwargs["event_processors"] = [rec]
+    obs: dict[str, Any] = {"status": "ok"}
+    with warnings.catch_warnings():
+        warnings.simplefilter("ignore")
+        try:
+            if runner == "sync":
+                results = SyncRunner().map(g, vals, **kwargs)
+            else:
+                if max_concurrency is not None:
+                    kwargs["max_concurrency"] = max_concurrency
+                if ctl is not None:
+                    from . import sched
+
+                    env.park = ctl.park
+                    try:
+                        results = sched.run_controlled(lambda: AsyncRunner().map(g, vals, **kwargs), ctl)
+                    finally:
+                        env.park = None
+                else:
+                    results = asyncio.run(AsyncRunner().map(g, vals, **kwargs))
+            obs["results"] = [canon_result(r, env) for r in results]
+            obs["raised"] = None
+        except Exception as e:
+            obs["results"] = []
+            obs["raised"] = canon_error(e, env)
+    obs["calls"] = [[fid, [[k, enc_val(v)] for k, v in kw.items()]] for fid, kw in env.log]
+    if rec is not None:
+        obs["events"] = [canon_event(e) for e in rec.events]
+        obs["shutdowns"] = rec.shutdowns
+    return obs
